@@ -44,7 +44,9 @@ func pollTimeouts[Type any, Status StatusType](
 		}
 
 		for _, expiredTimeout := range expiredTimeouts {
-			r, err := w.recordStore.Latest(ctx, expiredTimeout.WorkflowName, expiredTimeout.ForeignID)
+			// The timeout belongs to one specific run: re-read that run and not the latest run of the foreign ID, which
+			// may be a newer run waiting at the same status with a timer of its own.
+			r, err := w.recordStore.Lookup(ctx, expiredTimeout.RunID)
 			if err != nil {
 				return err
 			}
